@@ -13,7 +13,10 @@ def k8(rng, lo, hi):
 
 
 def fmt(t):
-    return pd.Timestamp(t).strftime('%Y-%m-%d %H:%M')
+    t = pd.Timestamp(t)
+    if t.tzinfo is not None:          # aware instants (cfg 'aware'): ISO text with the UTC offset, so repeated DST hours stay distinct
+        return t.isoformat()
+    return t.strftime('%Y-%m-%d %H:%M')
 
 
 def freq_td(freq):
@@ -36,6 +39,8 @@ class Unsafe(Exception):
 def check_safe(t, tz):
     """wall-clock time that exists exactly once in the zone"""
     if tz is None or t is None:
+        return
+    if pd.Timestamp(t).tzinfo is not None:
         return
     try:
         pd.Timestamp(pd.Timestamp(t).strftime('%Y-%m-%d %H:%M:%S'), tz=tz)
@@ -68,6 +73,8 @@ def gen_grid0(rng, cfg):
     check_safe(end, tz)
     g = {'start': start, 'end': fmt(end), 'freq': freq, 'unit': unit, 'tz': tz}
     g['T'] = grid_T(g)
+    if tz is not None and cfg.get('aware'):
+        g['aware'] = True       # windows, takes, orders and interval data are given as aware instants
     return g
 
 
@@ -75,6 +82,8 @@ def grid_points(g):
     """naive wall-clock time points of the grid (for placing windows)"""
     pts = pd.date_range(start=pd.Timestamp(g['start'], tz=g.get('tz')), end=pd.Timestamp(g['end'], tz=g.get('tz')),
                         freq=g['freq'], tz=g.get('tz'))
+    if g.get('aware'):
+        return list(pts)
     return [p.tz_localize(None) if p.tzinfo is not None else p for p in pts]
 
 
@@ -127,6 +136,11 @@ def gen_interval_param(rng, g, lo, hi, cfg, with_end=None):
         with_end = rng.random() < 0.6
     if with_end:
         ends = [pts[c] for c in cuts] + [pts[T] + freq_td(g['freq'])]
+        if rng.random() < cfg.get('p_gap', 0.0) and T >= 2:
+            # the data do not cover the whole horizon: the last interval ends early (NaN for the rest -> must be rejected)
+            ends[-1] = pts[rng.randint(max(cuts + [0]) + 1, T)] if max(cuts + [0]) + 1 <= T - 1 else ends[-1]
+            if ends[-1] == pts[T]:
+                ends[-1] = pts[T - 1] if T - 1 > max(cuts + [0]) else ends[-1]
         for t in ends:
             check_safe(t, g.get('tz'))
         d['end'] = [fmt(t) for t in ends]
